@@ -198,6 +198,10 @@ def _translate_metadata_to_ds9(region, shape):
     if fill is not None:
         meta['fill'] = int(fill)
 
+    if 'include' in meta:
+        # DS9 include values are 1 or 0 (bool values cannot be read back)
+        meta['include'] = int(meta['include'])
+
     if 'text' in meta:
         meta['text'] = f'{{{meta["text"]}}}'
 
